@@ -37,23 +37,23 @@ Proof.
   exfalso. exact (first_common_none _ _ _ E x A B C).
 Qed.
 
-(* highest_common: invariant of the fold *)
-Definition hc_step (b : list Z) (acc : option Z) (v : Z) : option Z :=
-  if mem v b then match acc with Some m => Some (Z.max m v) | None => Some v end else acc.
+(* highest_such: invariant of the fold *)
+Definition hs_step (p : Z -> bool) (acc : option Z) (v : Z) : option Z :=
+  if p v then match acc with Some m => Some (Z.max m v) | None => Some v end else acc.
 
-Lemma hc_fold_spec b a : forall acc seen,
+Lemma hs_fold_spec p a : forall acc seen,
   (match acc with
-   | Some m => In m seen /\ In m b /\ (forall w, In w seen -> In w b -> w <= m)
-   | None => forall w, In w seen -> In w b -> False end) ->
-  match fold_left (hc_step b) a acc with
-  | Some m => In m (seen ++ a) /\ In m b /\ (forall w, In w (seen ++ a) -> In w b -> w <= m)
-  | None => forall w, In w (seen ++ a) -> In w b -> False end.
+   | Some m => In m seen /\ p m = true /\ (forall w, In w seen -> p w = true -> w <= m)
+   | None => forall w, In w seen -> p w = true -> False end) ->
+  match fold_left (hs_step p) a acc with
+  | Some m => In m (seen ++ a) /\ p m = true /\ (forall w, In w (seen ++ a) -> p w = true -> w <= m)
+  | None => forall w, In w (seen ++ a) -> p w = true -> False end.
 Proof.
   induction a as [|v t IH]; intros acc seen Hacc; cbn [fold_left].
   - rewrite app_nil_r. exact Hacc.
   - replace (seen ++ v :: t) with ((seen ++ [v]) ++ t) by (rewrite <- app_assoc; reflexivity).
-    apply IH. unfold hc_step. destruct (mem v b) eqn:M.
-    + apply mem_In in M. destruct acc as [m|].
+    apply IH. unfold hs_step. destruct (p v) eqn:M.
+    + destruct acc as [m|].
       * destruct Hacc as [A [B C]]. split; [|split].
         -- destruct (Z.max_spec m v) as [[_ ->]|[_ ->]]; apply in_or_app; [right; left; reflexivity|left; exact A].
         -- destruct (Z.max_spec m v) as [[_ ->]|[_ ->]]; assumption.
@@ -62,28 +62,17 @@ Proof.
         intros w Hw Hb. apply in_app_or in Hw. destruct Hw as [Hw|[<-|[]]]; [exfalso; exact (Hacc w Hw Hb)|lia].
     + destruct acc as [m|].
       * destruct Hacc as [A [B C]]. split; [apply in_or_app; left; exact A|]. split; [exact B|].
-        intros w Hw Hb. apply in_app_or in Hw. destruct Hw as [Hw|[<-|[]]]; [exact (C w Hw Hb)|].
-        apply mem_In in Hb. congruence.
-      * intros w Hw Hb. apply in_app_or in Hw. destruct Hw as [Hw|[<-|[]]]; [exact (Hacc w Hw Hb)|].
-        apply mem_In in Hb. congruence.
+        intros w Hw Hb. apply in_app_or in Hw. destruct Hw as [Hw|[<-|[]]]; [exact (C w Hw Hb)|congruence].
+      * intros w Hw Hb. apply in_app_or in Hw. destruct Hw as [Hw|[<-|[]]]; [exact (Hacc w Hw Hb)|congruence].
 Qed.
 
-Lemma highest_common_spec a b :
-  match highest_common a b with
-  | Some m => In m a /\ In m b /\ (forall w, In w a -> In w b -> w <= m)
-  | None => forall w, In w a -> In w b -> False end.
+Lemma highest_such_spec p a :
+  match highest_such p a with
+  | Some m => In m a /\ p m = true /\ (forall w, In w a -> p w = true -> w <= m)
+  | None => forall w, In w a -> p w = true -> False end.
 Proof.
-  unfold highest_common. change (fun acc v => _) with (hc_step b).
-  apply (hc_fold_spec b a None []). intros w [].
-Qed.
-
-Lemma highest_unique a b v : In v a -> In v b -> (forall w, In w a -> In w b -> w <= v) ->
-  highest_common a b = Some v.
-Proof.
-  intros A B C. pose proof (highest_common_spec a b) as H.
-  destruct (highest_common a b) as [m|].
-  - destruct H as [A' [B' C']]. f_equal. specialize (C m A' B'). specialize (C' v A B). lia.
-  - exfalso. exact (H v A B).
+  unfold highest_such. change (fun acc v => _) with (hs_step p).
+  apply (hs_fold_spec p a None []). intros w [].
 Qed.
 
 Lemma feasible_spec env c s v suite : feasible env c s v suite = true <->
@@ -110,34 +99,40 @@ Proof.
       destruct (first_common_exists (cf_sigs s) (cf_sigs c) (sig_fits env v) g B A C) as [y ->]. reflexivity.
 Qed.
 
+Lemma version_ok_spec env c s v : version_ok env c s v = true ->
+  In v (cf_versions s).
+Proof. unfold version_ok. rewrite andb_true_iff, mem_In. intros [A _]. exact A. Qed.
+
 Theorem spec_fails_iff_no_common_pf env c s : spec_negotiate env c s = None <-> ~ common env c s.
 Proof.
-  unfold spec_negotiate. pose proof (highest_common_spec (cf_versions c) (cf_versions s)) as HV.
-  destruct (highest_common (cf_versions c) (cf_versions s)) as [v|] eqn:EV.
+  unfold spec_negotiate. pose proof (highest_such_spec (version_ok env c s) (cf_versions c)) as HV.
+  destruct (highest_such (version_ok env c s) (cf_versions c)) as [v|] eqn:EV.
   - destruct HV as [V1 [V2 V3]].
     destruct (first_common (cf_suites s) (cf_suites c) (feasible env c s v)) as [suite|] eqn:ES.
     + apply first_common_some in ES. destruct ES as [S1 [S2 S3]]. apply feasible_spec in S3.
+      assert (CM : exists v suite, In v (cf_versions c) /\ version_ok env c s v = true /\
+         (forall w, In w (cf_versions c) -> version_ok env c s w = true -> w <= v) /\
+         In suite (cf_suites c) /\ In suite (cf_suites s) /\ usable env v suite = true /\
+         (needs_group env suite = true -> exists g, In g (cf_groups c) /\ In g (cf_groups s)) /\
+         (needs_sig env v suite = true -> exists sg, In sg (cf_sigs c) /\ In sg (cf_sigs s) /\ sig_fits env v sg = true)).
+      { exists v, suite. destruct S3 as [U [G Sg]]. repeat split; assumption. }
       destruct (cf_alpn c) as [a|] eqn:EA, (cf_alpn s) as [b|] eqn:EB;
-        try (split; [discriminate|]; intros N; exfalso; apply N; exists v; split; [repeat split; assumption|];
-             split; [exists suite; destruct S3 as [U [G Sg]]; repeat split; assumption|];
-             intros a0 b0 X Y; congruence).
+        try (split; [discriminate|]; intros N; exfalso; apply N; split; [exact CM|]; intros a0 b0 X Y; congruence).
       destruct (first_common b a (fun _ => true)) as [p|] eqn:EP.
-      * split; [discriminate|]. intros N. exfalso. apply N. exists v. split; [repeat split; assumption|].
-        split; [exists suite; destruct S3 as [U [G Sg]]; repeat split; assumption|].
-        intros a0 b0 X Y. rewrite EA in X. rewrite EB in Y. injection X as <-. injection Y as <-. apply first_common_some in EP.
-        exists p. split; [exact (proj1 (proj2 EP))|exact (proj1 EP)].
-      * split; [|reflexivity]. intros _ [v' [_ [_ AL]]].
-        destruct (AL a b EA EB) as [p [P1 P2]].
+      * split; [discriminate|]. intros N. exfalso. apply N. split; [exact CM|].
+        intros a0 b0 X Y. rewrite EA in X. rewrite EB in Y. injection X as <-. injection Y as <-.
+        apply first_common_some in EP. exists p. split; [exact (proj1 (proj2 EP))|exact (proj1 EP)].
+      * split; [|reflexivity]. intros _ [_ AL]. destruct (AL a b EA EB) as [p [P1 P2]].
         exact (first_common_none _ _ _ EP p P2 P1 eq_refl).
-    + split; [|reflexivity]. intros _ [v' [[W1 [W2 W3]] [[suite [S1 [S2 [U [G Sg]]]]] _]]].
+    + split; [|reflexivity]. intros _ [[v' [suite [W1 [W2 [W3 [S1 [S2 [U [G Sg]]]]]]]]] _].
       assert (v' = v) by (specialize (V3 v' W1 W2); specialize (W3 v V1 V2); lia). subst v'.
       apply (first_common_none _ _ _ ES suite S2 S1). apply feasible_spec. repeat split; assumption.
-  - split; [|reflexivity]. intros _ [v' [[W1 [W2 _]] _]]. exact (HV v' W1 W2).
+  - split; [|reflexivity]. intros _ [[v [suite [W1 [W2 _]]]] _]. exact (HV v W1 W2).
 Qed.
 
 Theorem spec_choice_in_both_pf env c s ch : spec_negotiate env c s = Some ch ->
   (In (co_version ch) (cf_versions c) /\ In (co_version ch) (cf_versions s) /\
-   forall w, In w (cf_versions c) -> In w (cf_versions s) -> w <= co_version ch) /\
+   forall w, In w (cf_versions c) -> version_ok env c s w = true -> w <= co_version ch) /\
   (In (co_suite ch) (cf_suites c) /\ In (co_suite ch) (cf_suites s) /\
    usable env (co_version ch) (co_suite ch) = true) /\
   (forall g, co_group ch = Some g -> In g (cf_groups c) /\ In g (cf_groups s)) /\
@@ -146,8 +141,9 @@ Theorem spec_choice_in_both_pf env c s ch : spec_negotiate env c s = Some ch ->
   (needs_group env (co_suite ch) = true -> co_group ch <> None) /\
   (needs_sig env (co_version ch) (co_suite ch) = true -> co_sig ch <> None).
 Proof.
-  unfold spec_negotiate. pose proof (highest_common_spec (cf_versions c) (cf_versions s)) as HV.
-  destruct (highest_common (cf_versions c) (cf_versions s)) as [v|]; [|discriminate].
+  unfold spec_negotiate. pose proof (highest_such_spec (version_ok env c s) (cf_versions c)) as HV.
+  destruct (highest_such (version_ok env c s) (cf_versions c)) as [v|]; [|discriminate].
+  destruct HV as [V1 [V2 V3]]. pose proof (version_ok_spec _ _ _ _ V2) as VS.
   destruct (first_common (cf_suites s) (cf_suites c) (feasible env c s v)) as [suite|] eqn:ES; [|discriminate].
   apply first_common_some in ES. destruct ES as [S1 [S2 S3]].
   pose proof S3 as F. apply feasible_spec in S3. destruct S3 as [U [G Sg]].
@@ -159,7 +155,7 @@ Proof.
                        co_alpn := match alpn with Some (Some p) => Some p | _ => None end |}).
   { destruct alpn as [[p|]|]; try discriminate H; injection H as <-; reflexivity. }
   subst ch. cbn [co_version co_suite co_group co_sig co_alpn].
-  split; [exact HV|]. split; [repeat split; assumption|]. split.
+  split; [repeat split; assumption|]. split; [repeat split; assumption|]. split.
   { intros g Hg. destruct (needs_group env suite); [|discriminate Hg].
     apply first_common_some in Hg. split; [exact (proj1 (proj2 Hg))|exact (proj1 Hg)]. }
   split.
